@@ -22,6 +22,7 @@ class Ctx:
 
 class ModelSystem(System):
     """Alphabet, reference and oracle for histories of Model / AttackerAttachment calls."""
+    reuse_unchanged = True
 
     def __init__(self, cfg):
         from . import langs
@@ -72,6 +73,9 @@ class ModelSystem(System):
         c.freed_ids, c.freed_names = [], []
         c.n_ops = 0
         c.last_outcome = None
+        # non-initial start state: a fixed prefix of (valid) calls replayed on every fresh context
+        for op in self.cfg.get('prefix', ()):
+            self.step(c, tuple(op), False)
         return c
 
     # ---------------------------------------------------------------- alphabet
@@ -320,7 +324,11 @@ class ModelSystem(System):
         identically and a replayed prefix reproduces the recorded state key."""
         kind = op[0]
         c.n_ops += 1
-        before = self.observe(c)
+        # one observation per step in both modes: the one taken after the previous step is this
+        # step's 'before' (nothing happens in between)
+        before = getattr(c, 'last_obs', None)
+        if before is None:
+            before = self.observe(c)
         mode, thunk, commit, tag = getattr(self, 'op_' + kind)(c, op)
         raised = None
         try:
@@ -328,7 +336,9 @@ class ModelSystem(System):
         except Exception as e:  # noqa: BLE001 - exception types are not compared
             raised = e
         c.last_outcome = (mode, 'raised' if raised is not None else 'ok')
-        after = self.observe(c)
+        if mode == MUST_SUCCEED and raised is None:
+            commit(checking)
+        after = c.last_obs = self.observe(c)
         if mode == MUST_RAISE:
             if raised is None:
                 if checking:
@@ -355,10 +365,8 @@ class ModelSystem(System):
                                 f'{kind} {tag}: valid call raised {type(raised).__name__}: {raised}')
             c.broken = True
             return
-        commit(checking)
-        final = self.observe(c)          # after commit: the lookups cover the ids / names just created
-        if checking:
-            self.compare(c, kind, ':' + tag if tag else '', obs=final)
+        if checking:                      # (taken after commit: the lookups cover ids / names just created)
+            self.compare(c, kind, ':' + tag if tag else '', obs=after)
         if self.graph_oracle and kind != 'generate_graph':
             self.check_graph(c, kind, checking)
 
